@@ -103,7 +103,7 @@ def coq_make(target: str | None = None, timeout=1500):
             if rc:
                 return rc, out
         tgt = target or "all"
-        return sh(f"timeout {timeout} make -j{JOBS} {tgt}", timeout + 30, cwd=COQ)
+        return sh(f"timeout {timeout} make -k -j{JOBS} {tgt}", timeout + 30, cwd=COQ)
 
 
 def coqchk_step(pid: str):
